@@ -200,7 +200,9 @@ theorem splitDot_dot (i f : Str) (h : noDot i = true) : splitDot (i ++ '.' :: f)
 theorem parse_digits (fits : Str → Bool) (ds : Str) (h : noDot ds = true) :
     parseNumber fits ds = (if fits ds then .integer false ds else .numeric ⟨false, ds, []⟩) := by
   have h' : ∀ x ∈ ds, ¬ x = '.' := by simpa [noDot] using h
-  simp [parseNumber, splitDot_noDot ds h, h']
+  have e : (∀ x ∈ ds, ¬ x = '.') ∧ fits ds = true ↔ fits ds = true := ⟨fun a => a.2, fun a => ⟨h', a⟩⟩
+  simp only [parseNumber, splitDot_noDot ds h, List.all_eq_true, decide_eq_true_eq, ne_eq,
+    Bool.and_eq_true, e]
 
 theorem parse_dec (fits : Str → Bool) (d : Dec) (h : noDot d.int = true) (hf : d.frac ≠ []) :
     parseNumber fits (decText d) = .numeric ⟨false, d.int, d.frac⟩ := by
